@@ -176,6 +176,7 @@ type pStep struct {
 	Inside *pStep     `json:"inside"` // a management op performed from inside rule HoldAt of this request (P.Do)
 	Extra  []string   `json:"extra"`  // extra keys injected with the request (C06)
 	Flag   bool       `json:"flag"`   // Req.Flag: rules of kind "cond" return only when it is set
+	RespOnly bool     `json:"resp_only"` // ExecuteRulesWithSpecifiedEM("", nil, "Req", req): no request object, the response slot carries the data
 	WaitMs int        `json:"wait_ms"`
 }
 
@@ -372,7 +373,7 @@ func snapshot(gp *engine.GenginePool, step int, probeNames []string) (s pSnap) {
 func callPool(gp *engine.GenginePool, st *pStep, data map[string]interface{}, tag *engine.Stag) (error, map[string]interface{}) {
 	switch st.Method {
 	case "ExecuteRulesWithSpecifiedEM":
-		if st.ID%4 == 0 { // no request object at all: the response slot carries the data
+		if st.ID%4 == 0 || st.RespOnly { // no request object at all: the response slot carries the data
 			return gp.ExecuteRulesWithSpecifiedEM("", nil, "Req", data["Req"])
 		}
 		if len(st.Extra) > 0 {
